@@ -110,15 +110,12 @@ def isDirObs : Obs → Bool
 
 /-- one step of the walk only looks at what the view shows at the child -/
 theorem walkStep_obs (W : Path → List Path) (o : Option Node) (c : Path) :
-    (match o with
-      | some n => if n.wh then [] else c :: (if n.kind = .dir then W c else [])
-      | none => []) =
-    (if obsOf o = .absent then [] else c :: (if isDirObs (obsOf o) then W c else [])) := by
+    walkStep W o c = (if obsOf o = .absent then [] else c :: (if isDirObs (obsOf o) then W c else [])) := by
   cases o with
-  | none => simp [obsOf]
+  | none => simp [walkStep, obsOf]
   | some n =>
     rcases n with ⟨kind, wh, mode, size, cid, target, layer⟩
-    cases kind <;> cases wh <;> simp [obsOf, Node.obs, isDirObs]
+    cases kind <;> cases wh <;> simp [walkStep, obsOf, Node.obs, isDirObs]
 
 theorem walk_congr (U : List Path) (t t' : Tree) (h : ∀ c, obsOf (t.get c) = obsOf (t'.get c)) :
     ∀ (f : Nat) (d : Path), walk U t f d = walk U t' f d := by
@@ -185,6 +182,11 @@ def ex29 : List Layer := [[dE ["a"], fE ["a","b"]], [wE ["a","b"], wE ["a"]]]
 theorem C04_view_fails_dropped_entry :
     obsOf ((viewOf ex29 1).get ["a"]) ≠ obsOf ((specView ex29 1).get ["a"]) := by decide
 
+/-- finding 29 in its mildest form: `a/y` precedes the tar's own entry for `a`, which is then dropped (mode 0 instead of 0700) -/
+def ex29b : List Layer := [[fE ["a","y"], dE ["a"] 0o700]]
+theorem C04_view_fails_dropped_entry_mode :
+    obsOf ((viewOf ex29b 0).get ["a"]) ≠ obsOf ((specView ex29b 0).get ["a"]) := by decide
+
 /-- finding 30: whiteout and re-creation of `a/b` in one tar: the new `a/b/new` is hidden by its own layer's whiteout -/
 def ex30 : List Layer := [[dE ["a"], dE ["a","b"], fE ["a","b","old"]], [dE ["a"], wE ["a","b"], dE ["a","b"], fE ["a","b","new"]]]
 theorem C04_view_fails_wh_recreate :
@@ -195,9 +197,10 @@ def exImpl : List Layer := [[dE ["a"], fE ["a","x"]], [fE ["a","y"]]]
 theorem C04_view_fails_implicit_dir :
     obsOf ((viewOf exImpl 1).get ["a"]) ≠ obsOf ((specView exImpl 1).get ["a"]) := by decide
 
-/-- each witness violates exactly the clause named after it -/
+/-- the clauses of `H` each witness violates (29 and 30 necessarily overlap: both need a path mentioned twice in one tar) -/
 theorem C04_witness_classes :
-    failingOf ex10 2 = ["recreate"] ∧ failingOf ex12 1 = ["opaque"] ∧ failingOf ex29 1 = ["dropped-entry"] ∧
+    failingOf ex10 2 = ["recreate"] ∧ failingOf ex12 1 = ["opaque"] ∧ failingOf ex29b 0 = ["dropped-entry"] ∧
+    failingOf ex29 1 = ["dropped-entry", "wh-recreate", "implicit-dir"] ∧
     failingOf ex30 1 = ["dropped-entry", "wh-recreate"] ∧ failingOf exImpl 1 = ["implicit-dir"] := by decide
 
 /-! ### non-vacuity: a three-layer image with explicit parents, a deletion two levels above a file, a file replacing a
